@@ -71,7 +71,7 @@ func init() {
 func runC01(x *Ctx) {
 	x.C.Rule("C01.R1", "every success path of the entry points carries the success of loadProofs, verifyProofs, verifyTimeBoundAt, verifyArgs", 8)
 	x.C.Rule("C01.R2", "verifyProofs cannot succeed with zero proofs", 1)
-	x.C.Rule("C01.R3", "loadProofs loads every proof and fails on a loader error", 4)
+	x.C.Rule("C01.R3", "loadProofs loads every proof, in order, and fails on a loader error", 5)
 	x.C.Rule("C01.R4", "per-link subject / audience guards on every iteration, root check after the loop", 5)
 	x.C.Rule("C01.R5", "optional audience (and other irrelevant fields) never read on the authorization path", 1)
 	x.C.Rule("C01.ACC", "getters return their namesake field", 6)
@@ -196,6 +196,9 @@ func loadProofsRule(x *Ctx, rule string) {
 		if okB, dB := loadProofsAppendIdiom(x, lp, l, lps, get); okB {
 			x.C.Obl(rule, "store-at-index:"+load.ShortName(lp), x.pos(lp), "each iteration appends the loaded delegation to the (initially empty) result, so res[i] is the delegation of proof i", true, "")
 			x.C.Obl(rule, "returns-result:"+load.ShortName(lp), x.pos(lp), "success returns the slice the delegations were appended to", true, "")
+			if sel, _, _ := x.E.Select(lp, paths.WantSuccess); len(sel) > 0 {
+				resultUntouched(x, rule, lp, l, sel[0].Results()[0].String())
+			}
 			return
 		} else {
 			detail += dB
@@ -214,6 +217,37 @@ func loadProofsRule(x *Ctx, rule string) {
 		}
 	}
 	x.C.Obl(rule, "returns-result:"+load.ShortName(lp), x.pos(lp), "success returns the slice made with len(recv.proof) into which the delegations were stored", okRet, detail)
+	resultUntouched(x, rule, lp, l, resSlice)
+}
+
+// resultUntouched: the order of the loaded delegations is the order of the proof list. On a success path nothing
+// but the loading loop writes the result slice, and it is not handed to any function (sort, reverse, compact,
+// a helper) before it is returned: the verification that follows is positional.
+func resultUntouched(x *Ctx, rule string, lp *ssa.Function, l *paths.Loop, res string) {
+	sel, _, _ := x.E.Select(lp, paths.WantSuccess)
+	bad := ""
+	for _, v := range sel {
+		v.InstrsIn(func(in ssa.Instruction, c *paths.Ctx) {
+			switch y := in.(type) {
+			case *ssa.Call:
+				ct := c.Term(y)
+				if ct.Op == "len" {
+					return
+				}
+				for _, a := range ct.Args {
+					if a != nil && a.String() == res {
+						bad += x.P.Pos(in.Pos()) + ": the loaded delegations are handed to " + ct.Name + " before being returned: their order (or content) may no longer be that of the proof list\n"
+					}
+				}
+			case *ssa.Store:
+				at := c.Term(y.Addr)
+				if at.Op == "elemaddr" && at.Args[0].String() == res && !l.Body[in.Block()] {
+					bad += x.P.Pos(in.Pos()) + ": an element of the result is written outside the loading loop\n"
+				}
+			}
+		})
+	}
+	x.C.Obl(rule, "result-untouched:"+load.ShortName(lp), x.pos(lp), "on a success path the loaded delegations are neither reordered, rewritten nor handed to another function before they are returned", bad == "" && len(sel) > 0, dedupLines(bad))
 }
 
 // loadProofsAppendIdiom: every success path returns the header phi R of the loop, R is nil or an empty
